@@ -303,7 +303,7 @@ func refWalkCalls(m *sysl.Module, start epRef, bb map[string]bool) []arrow {
 	return out
 }
 
-func genSeq(m *sysl.Module, start string, bb map[string]*cmdutils.Upto, group string) (out string, err error, crash string) {
+func genSeq(m *sysl.Module, start string, bb map[string]*cmdutils.Upto, group string, more ...string) (out string, err error, crash string) {
 	defer func() {
 		if r := recover(); r != nil {
 			crash = fmt.Sprint(r)
@@ -312,7 +312,10 @@ func genSeq(m *sysl.Module, start string, bb map[string]*cmdutils.Upto, group st
 	lg := logrus.New()
 	lg.SetOutput(io.Discard)
 	l := &cmdutils.Labeler{}
-	p := &sequencediagram.SequenceDiagParam{Endpoints: []string{start}, Blackboxes: bb, Group: group}
+	p := &sequencediagram.SequenceDiagParam{Endpoints: append([]string{start}, more...), Blackboxes: bb, Group: group}
+	if bb == nil && len(more) > 0 {
+		p.Blackboxes = map[string]*cmdutils.Upto{} // the collection registers the other starts here
+	}
 	p.AppLabeler = l
 	p.EndpointLabeler = l
 	out, err = sequencediagram.GenerateSequenceDiag(m, p, lg)
@@ -370,11 +373,20 @@ func (c13) Run(c core.Case) core.Outcome {
 				name  string
 				bb    string
 				group string
+				multi int // 1 + index of a second start endpoint drawn in the same diagram (0 = none)
 			}
 			opts := []opt{{name: "plain"}, {name: "group", group: "grp"}}
 			for i := 0; i < n; i++ {
 				if i != s {
 					opts = append(opts, opt{name: "bb", bb: cs.Dist[i] + " <- " + c13EpName(i)})
+				}
+			}
+			if msum := idx[0] + idx[n-1]; msum%3 == 1 {
+				// two start endpoints in one diagram (the second start is registered as "see below" for the first)
+				for i := 0; i < n; i++ {
+					if i != s && cs.Hidden != i+1 {
+						opts = append(opts, opt{name: "multi", multi: i + 1})
+					}
 				}
 			}
 			for _, op := range opts {
@@ -384,14 +396,18 @@ func (c13) Run(c core.Case) core.Outcome {
 					bb = map[string]*cmdutils.Upto{op.bb: {Comment: "blackbox", ValueType: cmdutils.BBCommandLine}}
 					bbset[op.bb] = true
 				}
-				out, err, crash := genSeq(m, start.App+" <- "+start.Ep, bb, op.group)
+				var more []string
+				if op.multi > 0 {
+					more = []string{cs.Dist[op.multi-1] + " <- " + c13EpName(op.multi-1)}
+				}
+				out, err, crash := genSeq(m, start.App+" <- "+start.Ep, bb, op.group, more...)
 				diagrams++
 				desc := func() string {
 					var b strings.Builder
 					for i := 0; i < n; i++ {
 						fmt.Fprintf(&b, "%s <- %s: {%s} ", cs.Dist[i], c13EpName(i), strings.ReplaceAll(bodies[idx[i]], "\n", "; "))
 					}
-					return fmt.Sprintf("model %sstart %s <- %s option %s%s%s", b.String(), start.App, start.Ep, op.name, op.bb, op.group)
+					return fmt.Sprintf("model %sstart %s <- %s option %s%s%s%v", b.String(), start.App, start.Ep, op.name, op.bb, op.group, more)
 				}
 				fail := func(sig, msg string) bool {
 					o.Class = "violation"
@@ -427,6 +443,10 @@ func (c13) Run(c core.Case) core.Outcome {
 					return fail(kind, strings.Join(problems, "; "))
 				}
 				want := refWalkCalls(m, start, bbset)
+				if op.multi > 0 {
+					// each start is its own section: the walk starts afresh
+					want = append(want, refWalkCalls(m, epRef{cs.Dist[op.multi-1], c13EpName(op.multi-1)}, bbset)...)
+				}
 				if fmt.Sprint(arrows) != fmt.Sprint(want) {
 					kind := "arrows-differ"
 					if len(arrows) < len(want) {
